@@ -422,11 +422,44 @@ func (ws *workerState) doUnary(a Val) {
 		ws.judge(op, "expr", body, a, nil, exp, oE, nil)
 		oA := ev.eval(srcUnaryAssign(op), &a, nil, true)
 		ws.judge(op, "assign", body, a, nil, exp, oA, &oE)
-		if op == "!" {
+		if oE.T == "value" && oE.Nil {
+			// not null, not an error: nothing. Stored into a variable it becomes null, but as the
+			// operand of an enclosing operator it stays absent (so !-true is null, not a bool)
+			what := fmt.Sprintf("%s%s evaluates to no value at all (neither a value nor a catchable error): `$t = %s$a; !$t` and `!%s$a` differ; operand class %s", opSrc(op), a, opSrc(op), opSrc(op), a.Sub())
+			ws.viol("un/"+op+"/"+a.Kind()+"/no-value", what, replayScript("no value from "+opSrc(op)+a.String(), "$r = !"+opSrc(op)+"$a;", &a, nil, what))
+		}
+		if op == "!" && !oE.Nil {
 			if o := oE; o.T == "value" && o.V.K != "bool" {
 				what := fmt.Sprintf("!%s is %s, not a bool; operand class %s", a, o, a.Sub())
 				ws.viol("law/kind/!/"+a.Kind(), what, replayScript("law kind/! on "+a.String(), body, &a, nil, what))
 			}
+		}
+	}
+	// nested unary operators: juxtaposed, parenthesised, with a literal operand; each against
+	// the composed reference and against the same applications done one statement at a time
+	lit, okLit := a.Lit()
+	for _, c := range unaryChains {
+		exp := refUnaryChain(c, a)
+		staged := chainStaged(c, "$a")
+		oS := ev.eval("<?php\n"+staged, &a, nil, true)
+		if ws.chainHasNoValue(c, a) {
+			ws.count(oS)
+			continue // reported once per operator and kind as un/<op>/<kind>/no-value
+		}
+		ws.judge(c.Name, "expr", staged, a, nil, exp, oS, nil)
+		for _, parens := range []bool{false, true} {
+			form := "nested"
+			if parens {
+				form = "nested-parens"
+			}
+			body := "$r = " + chainSrc(c, "$a", parens) + ";"
+			o := ev.eval("<?php\n"+body, &a, nil, true)
+			ws.judge(c.Name, form, body, a, nil, exp, o, &oS)
+		}
+		if okLit && a.K != "obj" && a.K != "fn" {
+			body := "$r = " + chainSrc(c, lit, false) + ";"
+			o := ev.eval("<?php\n"+body, nil, nil, false)
+			ws.judge(c.Name, "nested-literal", body, a, nil, exp, o, &oS)
 		}
 	}
 	// (iii) truthiness is context independent
@@ -583,4 +616,28 @@ func (ws *workerState) judgeSame(op, form, body string, v Val, scalar bool, o Ou
 	base := ws.ev.eval(srcExpr(op), &v, &v, true)
 	ws.evals++
 	ws.judge(op, form, body, v, &v, refBinary(op, v, v), o, &base)
+}
+
+// chainHasNoValue: some inner application of the chain, evaluated on the value the previous ones
+// produce, yields no value (Go nil). Nested and staged evaluation then differ for that one
+// reason, which has its own key.
+func (ws *workerState) chainHasNoValue(c unaryChain, a Val) bool {
+	cur := a
+	for i := len(c.Ops) - 1; i >= 1; i-- {
+		o := ws.ev.eval(srcUnaryExpr(c.Ops[i]), &cur, nil, true)
+		ws.evals++
+		if o.T != "value" {
+			return false // throws / panics: both spellings stop there
+		}
+		if o.Nil {
+			return true
+		}
+		switch o.V.K {
+		case "int", "float", "str", "bool", "null":
+			cur = o.V
+		default:
+			return false
+		}
+	}
+	return false
 }
